@@ -93,6 +93,14 @@ func instantiateContainers(h []contOp, kind string) (inputs []string, ok bool) {
 				inputs = append(inputs, fmt.Sprintf("%s = %s + {%d:%d}", op.Y, op.X, v, v))
 				keys[op.Y] = append(append([]int{}, keys[op.X]...), v)
 			}
+		case "shrink":
+			if kind == "arr" {
+				inputs = append(inputs, fmt.Sprintf("%s = %s[0:-1]", op.X, op.X))
+			} else {
+				ks := keys[op.X]
+				inputs = append(inputs, fmt.Sprintf("del(%s[%d])", op.X, ks[len(ks)-1]))
+				keys[op.X] = append([]int{}, ks[:len(ks)-1]...)
+			}
 		case "concat":
 			if kind != "arr" {
 				return nil, false
@@ -128,6 +136,10 @@ func expectedPrint(val map[string][]int, h []contOp, kind string) string {
 			keys[op.Y] = append([]int{}, keys[op.X]...)
 		case "append":
 			keys[op.Y] = append(append([]int{}, keys[op.X]...), v)
+		case "shrink":
+			if n := len(keys[op.X]); n > 0 {
+				keys[op.X] = append([]int{}, keys[op.X][:n-1]...)
+			}
 		}
 	}
 	for _, name := range []string{"a", "b", "c"} {
@@ -226,7 +238,7 @@ func checkC06(c *Ctx) {
 				cur := strings.Fields(strings.TrimSpace(got.Out))
 				last := g.H[len(g.H)-1]
 				target := last.Y
-				if last.Op == "set" {
+				if last.Op == "set" || last.Op == "shrink" {
 					target = last.X
 				}
 				if len(prev) == 3 && len(cur) == 3 {
